@@ -1,10 +1,10 @@
 \* Exhaustive check of the route model (design level): all 5 design classes, all containers, 2^3 formatting
-\* variants, both entry points, all 8 option sets (one option set per behaviour, see NextMC); results from the
+\* variants, both entry points, all 7 option sets (one option set per behaviour, see NextMC); results from the
 \* mechanism model. History hidden by VIEW (and not extended). The state space is finite without a length bound.
 SPECIFICATION SpecMC
 CONSTANTS
   Classes = {"g", "gb", "gi", "u", "uk"}
-  OptSets = {"default", "flatten", "keepdir", "noprod", "decompose", "tristate", "dtc", "debg"}
+  OptSets = {"default", "flatten", "keepdir", "noprod", "decompose", "tristate", "dtc"}
   FormatOps = {"indent", "keyorder", "eol"}
   MaxLen = 0
   MinCompiles = 0
